@@ -25,6 +25,28 @@ CLAIMED = {
     note=TB + "hashlib/codecs are trusted; 'the hash changes when identity changes' holds up to hash collisions and is checked "
          "on generated populations, not proved; T1 translator harness/translate/c01.py.",
     technique="Coq proof over Gallina model with constants regenerated from source (ast) + correspondence on captured hash inputs", ref='5 C01'),
+ 'C04': dict(
+    text="Theorems over the merge model (for every ordering of the data type's values, every event type and group): per-strategy "
+         "laws (match unchanged, add union, min/max extreme, replace highest version, set first non-empty, any one instance), "
+         "parents union, the merged event has the same hash input as the instances (via C01's pre-image), objects come from "
+         "instances / mandatory stays present / single-valued stays single-valued, conflict iff same version and differing "
+         "property; refutation of the pre-fix behaviour. Model tied to EventType.merge_events / resolve_collisions on generated "
+         "groups for every strategy x data type x cardinality and the three event classes; independent clause-by-clause oracle "
+         "including the real validator and hash.",
+    note=TB + "the per-data-type orderings are tabulated by the harness (int, Decimal/Fraction, float, lexicographic) and passed "
+         "to the model as ranks; event versions are canonical sequence strings; attachments of later instances are not asserted.",
+    technique="Coq proof over Gallina merge model + model/implementation correspondence (vm_compute)", ref='5 C04'),
+ 'C05': dict(
+    text="Theorems: permutation invariance per order-free strategy (add, match under shared hash, min/max under an injective "
+         "ordering - refuted without it -, replace under an event version without conflict), duplication law, and the batching "
+         "law for EVERY partition of a group into consecutive blocks (merge of partial merges = merge of all), parents "
+         "included. Tied to the code by running all permutations (<=120), all consecutive partitions and the one-at-a-time fold "
+         "of generated groups through merge_events, and the two stream merger classes of edxml-merge with every buffer size "
+         "1..n+1 against executable Gallina stream models.",
+    note=TB + "the step from the batching theorem to the stream mergers (per hash a merger splits the group into consecutive "
+         "blocks) is argued in DESIGN.md and checked by correspondence of the executable stream models, not proved; ranks "
+         "tabulated by the harness; only properties with order-free strategies are compared.",
+    technique="Coq proof (permutation/duplication/batching laws) + exhaustive small-scope correspondence on the implementation", ref='5 C05'),
  'C19': dict(
     text="Theorem over the root-children bookkeeping model for EVERY schedule of 'child received'/'end event processed' "
          "actions (every chunking / reader block size) and every sequence of ontology and event children of any length: "
